@@ -464,10 +464,8 @@ def run(chk: core.Check):
     def pre():
         st, _ = translate.run()
         status.update(st)
-    try:
+    with core.LeanLock():  # the translator writes the generated Lean files
         pre()
-    except Exception:
-        pass
     skipm = {mm: "translator (route T2): " + ", ".join(f"{k}: {status.get(k, {}).get('reason')}" for k in ks
                                                       if status.get(k, {}).get("state") != "translated")
              for mm, ks in L1_LOOPS.items() if any(status.get(k, {}).get("state") != "translated" for k in ks)}
